@@ -55,7 +55,7 @@ TECH = {
             'not its sufficiency); behaviour of the user functor.'),
     'C02': ('CFG path / ordering / ownership analysis over the 4 tasking backend configurations; member-order rule; who-may-delete over ITaskSet overrides',
             'Trusted: backend contracts (tbb::task_arena::enqueue, task_group::run, std::thread, the enkiTS pipe invoke a submitted callable exactly once); '
-            'no exception edges. Not decided: that an enqueued task eventually runs (liveness); std::packaged_task/std::future internals.'),
+            'no exception edges. One known finding (internal backend: application threads the scheduler did not create share the single-writer pipe 0, see known_findings.json). Not decided: that an enqueued task eventually runs beyond the wake-up handshake and drain rules (liveness); std::packaged_task/std::future internals.'),
     'C03': ('ordering automata over clang CFGs (store-own-flag-then-load-the-other handshake), lock-scope and condition-variable discipline',
             'Trusted: C++11 seq_cst total order; one controlling thread at a time; one AsyncLoopData per object. Not decided: wake-up latency '
             'beyond the absence of a lost wake-up; a body that never returns; that tasking::schedule runs the closure (C02).'),
